@@ -165,7 +165,10 @@ def diff_obs(model_text, impl_text, ignore_unlim=False):
 def diff_obs_numeric(model_text, impl_text, rel=1e-12):
     """like diff_obs, but cells are compared numerically within `rel` (float64 results of a few
     operations on integers below 1e4 against the exact rational)"""
-    a, b = parse_obs(model_text), parse_obs(impl_text)
+    return diff_parsed_numeric(parse_obs(model_text), parse_obs(impl_text), rel)
+
+
+def diff_parsed_numeric(a, b, rel=1e-12):
     if a['dims'] != b['dims']:
         return 'dimensions model=%s impl=%s' % (a['dims'], b['dims'])
     if sorted(a['vars']) != sorted(b['vars']):
